@@ -46,7 +46,9 @@ type evFrame struct {
 	bindF *evFrame
 	// bound: fn is a method entered through a bound method value (mc binds the receiver)
 	bound bool
-	id    int
+	// recv: fn is a method entered through an interface call; its receiver is this value
+	recv evVal
+	id   int
 }
 
 func (f *evFrame) within(g *evFrame) bool {
@@ -75,18 +77,23 @@ type evFrameKey struct {
 
 // evFrames interns frames and resolves values across them.
 type evFrames struct {
-	P       *Prog
-	Inline  func(fn *ssa.Function) bool
-	frames  map[evFrameKey]*evFrame
-	vids    map[ssa.Value]int
-	all     []*evFrame
-	rdepth  int
-	cells   map[*ssa.Alloc]bool
-	structs map[*ssa.Alloc]map[int]*ssa.FieldAddr
+	P          *Prog
+	Inline     func(fn *ssa.Function) bool
+	frames     map[evFrameKey]*evFrame
+	vids       map[ssa.Value]int
+	all        []*evFrame
+	rdepth     int
+	cells      map[*ssa.Alloc]bool
+	structs    map[*ssa.Alloc]map[int]*ssa.FieldAddr
+	arrays     map[*ssa.Alloc]map[int64]*ssa.IndexAddr
+	fieldFuncs map[FieldID][]*ssa.Store
+	impls      map[*types.Func]*ssa.Function
+	konsts     map[string]*ssa.Const
 }
 
 func newEvFrames(p *Prog, inline func(fn *ssa.Function) bool) *evFrames {
-	return &evFrames{P: p, Inline: inline, frames: map[evFrameKey]*evFrame{}, vids: map[ssa.Value]int{}, cells: map[*ssa.Alloc]bool{}, structs: map[*ssa.Alloc]map[int]*ssa.FieldAddr{}}
+	return &evFrames{P: p, Inline: inline, frames: map[evFrameKey]*evFrame{}, vids: map[ssa.Value]int{}, cells: map[*ssa.Alloc]bool{}, structs: map[*ssa.Alloc]map[int]*ssa.FieldAddr{},
+		arrays: map[*ssa.Alloc]map[int64]*ssa.IndexAddr{}, impls: map[*types.Func]*ssa.Function{}, konsts: map[string]*ssa.Const{}}
 }
 
 func (t *evFrames) frame(parent *evFrame, site ssa.CallInstruction, fn *ssa.Function, mc *ssa.MakeClosure, bindF *evFrame) *evFrame {
@@ -111,23 +118,60 @@ func (t *evFrames) Root(fn *ssa.Function) *evFrame { return t.frame(nil, nil, or
 // nil if the callee is dynamic, has no body, is excluded by Inline or is
 // already active (recursion).
 func (t *evFrames) Callee(f *evFrame, site ssa.CallInstruction) *evFrame {
+	var rv evVal
+	if cc := site.Common(); !cc.IsInvoke() {
+		rv = t.Resolve(f, cc.Value)
+	}
+	return t.calleeVal(f, site, rv)
+}
+
+// calleeVal: like Callee, with the function value of a dynamic call already
+// resolved (possibly through what a path knows) to rv. Followed are: static
+// calls; closures and functions reached through parameters, variables, cells
+// and elements of literal tables; bound method values; unexported func-typed
+// fields assigned exactly once in the package to a known function; calls
+// through an interface declared in the package that has exactly one
+// implementation in it.
+func (t *evFrames) calleeVal(f *evFrame, site ssa.CallInstruction, rv evVal) *evFrame {
+	return t.calleeOf(f, site, rv, false)
+}
+
+// calleeOf: with valueOnly the callee is the function value rv, whatever the
+// call instruction itself calls (used for fn in once.Do(fn)).
+func (t *evFrames) calleeOf(f *evFrame, site ssa.CallInstruction, rv evVal, valueOnly bool) *evFrame {
 	cal := staticCallee(site)
+	if valueOnly {
+		cal = nil
+	}
 	var mc *ssa.MakeClosure
 	bindF := f
-	bound := false
-	if m, ok := site.Common().Value.(*ssa.MakeClosure); ok {
-		mc = m
-	} else if cal == nil && !site.Common().IsInvoke() {
-		// a function value whose target is known: a parameter or variable that
-		// holds a closure / function of the module
-		rv := t.Resolve(f, site.Common().Value)
-		switch v := rv.V.(type) {
-		case *ssa.MakeClosure:
-			if fn, ok := v.Fn.(*ssa.Function); ok {
-				cal, mc, bindF = origin(fn), v, rv.F
+	var recv evVal
+	cc := site.Common()
+	switch {
+	case cc.IsInvoke() && !valueOnly:
+		if m := t.soleImpl(cc.Method); m != nil {
+			cal = m
+			recv = t.Resolve(f, cc.Value)
+		}
+	default:
+		if m, ok := cc.Value.(*ssa.MakeClosure); ok && !valueOnly {
+			mc = m
+		} else if cal == nil {
+			v := rv
+			// a func-typed field assigned once
+			if id, _, ok := fieldOfValue(v.V); ok {
+				if tgt, ok := t.fieldFunc(id); ok {
+					v = tgt
+				}
 			}
-		case *ssa.Function:
-			cal = origin(v)
+			switch fv := v.V.(type) {
+			case *ssa.MakeClosure:
+				if fn, ok := fv.Fn.(*ssa.Function); ok {
+					cal, mc, bindF = origin(fn), fv, v.F
+				}
+			case *ssa.Function:
+				cal = origin(fv)
+			}
 		}
 	}
 	// a bound method value is entered through its synthetic wrapper, whose free
@@ -153,8 +197,121 @@ func (t *evFrames) Callee(f *evFrame, site ssa.CallInstruction) *evFrame {
 	if mc == nil {
 		bindF = nil
 	}
-	_ = bound
-	return t.frame(f, site, cal, mc, bindF)
+	fr := t.frame(f, site, cal, mc, bindF)
+	if !recv.IsZero() {
+		fr.recv = recv
+	}
+	return fr
+}
+
+// fieldFunc: the function value an unexported func-typed struct field always
+// holds: the field is stored exactly once in the module, with a function,
+// closure or method value (typically in the constructor).
+func (t *evFrames) fieldFunc(id FieldID) (evVal, bool) {
+	if t.fieldFuncs == nil {
+		t.fieldFuncs = map[FieldID][]*ssa.Store{}
+		for _, fn := range t.P.Funcs {
+			allInstrs(fn, func(in ssa.Instruction) {
+				st, ok := in.(*ssa.Store)
+				if !ok {
+					return
+				}
+				if _, isSig := st.Val.Type().Underlying().(*types.Signature); !isSig {
+					return
+				}
+				if fa, ok := st.Addr.(*ssa.FieldAddr); ok {
+					k := fieldIDOfAddr(fa)
+					t.fieldFuncs[k] = append(t.fieldFuncs[k], st)
+				}
+			})
+		}
+	}
+	sts := t.fieldFuncs[id]
+	if len(sts) != 1 || id.Field == "" || token.IsExported(id.Field) {
+		return evVal{}, false
+	}
+	root := t.Root(sts[0].Parent())
+	v := t.Resolve(root, sts[0].Val)
+	switch v.V.(type) {
+	case *ssa.MakeClosure, *ssa.Function:
+		return v, true
+	}
+	return evVal{}, false
+}
+
+// soleImpl: m is a method of an interface declared in a module package that
+// exactly one named type of that package implements; returns that type's method.
+func (t *evFrames) soleImpl(m *types.Func) *ssa.Function {
+	if m == nil || m.Pkg() == nil {
+		return nil
+	}
+	if f, ok := t.impls[m]; ok {
+		return f
+	}
+	t.impls[m] = nil
+	pkg := t.P.All[m.Pkg().Path()]
+	sig, _ := m.Type().(*types.Signature)
+	if pkg == nil || sig == nil || sig.Recv() == nil || !strings.HasPrefix(m.Pkg().Path(), t.P.ModPath) {
+		return nil
+	}
+	iface, _ := sig.Recv().Type().Underlying().(*types.Interface)
+	if iface == nil {
+		return nil
+	}
+	// the interface must be declared (as a named type) in that package
+	declared := false
+	scope := pkg.Types.Scope()
+	for _, name := range scope.Names() {
+		if tn, ok := scope.Lookup(name).(*types.TypeName); ok && !tn.Exported() {
+			if it, ok := tn.Type().Underlying().(*types.Interface); ok && it == iface {
+				declared = true
+			}
+		}
+	}
+	if !declared {
+		return nil
+	}
+	var found *ssa.Function
+	n := 0
+	for _, name := range scope.Names() {
+		tn, ok := scope.Lookup(name).(*types.TypeName)
+		if !ok {
+			continue
+		}
+		if _, isI := tn.Type().Underlying().(*types.Interface); isI {
+			continue
+		}
+		if _, isTP := tn.Type().(*types.TypeParam); isTP {
+			continue
+		}
+		for _, ty := range []types.Type{tn.Type(), types.NewPointer(tn.Type())} {
+			ms := types.NewMethodSet(ty)
+			sel := ms.Lookup(m.Pkg(), m.Name())
+			if sel == nil {
+				continue
+			}
+			ok := true
+			for i := 0; i < iface.NumMethods(); i++ {
+				if ms.Lookup(iface.Method(i).Pkg(), iface.Method(i).Name()) == nil {
+					ok = false
+				}
+			}
+			if !ok {
+				continue
+			}
+			if mo, isF := sel.Obj().(*types.Func); isF {
+				if fn := t.P.SSA.FuncValue(mo.Origin()); fn != nil {
+					found = origin(fn)
+					n++
+				}
+			}
+			break
+		}
+	}
+	if n == 1 {
+		t.impls[m] = found
+	}
+	return t.impls[m]
 }
 
 func (t *evFrames) vid(v ssa.Value) int {
@@ -169,7 +326,7 @@ func (t *evFrames) vid(v ssa.Value) int {
 // evCellStores returns the values stored into a local cell (directly or through
 // closures that capture it) and whether the cell's address escapes otherwise.
 func evCellStores(a ssa.Value, depth int) (vals []ssa.Value, inFn []*ssa.Function, escapes bool) {
-	if depth > 4 {
+	if depth > 10 {
 		return nil, nil, true
 	}
 	for _, r := range refs(a) {
@@ -227,6 +384,13 @@ func (t *evFrames) Resolve(f *evFrame, v ssa.Value) evVal {
 				}
 			}
 			args := f.site.Common().Args
+			if !f.recv.IsZero() {
+				if idx == 0 {
+					f, v = f.recv.F, f.recv.V
+					continue
+				}
+				idx--
+			}
 			if f.bound && f.mc != nil {
 				if idx == 0 {
 					f, v = f.bindF, f.mc.Bindings[0]
@@ -626,7 +790,26 @@ func (x *EvExplorer[S]) Visited() []*ssa.Function {
 
 // Explore runs root from abstract state init and returns the distinct exits.
 func (x *EvExplorer[S]) Explore(root *evFrame, init S) []evExit[S] {
-	out := x.runFrame(root, evPath[S]{abs: init})
+	return x.ExploreFrom(root, init, nil)
+}
+
+// EvSnapshot is what a path knew at some point (e.g. at a `go` statement), to
+// start the exploration of the goroutine body with.
+type EvSnapshot struct{ ents []evEnvEnt }
+
+// Snapshot captures what the current path knows.
+func (c *EvCtx[S]) Snapshot() *EvSnapshot {
+	return &EvSnapshot{ents: append([]evEnvEnt(nil), c.X.et.dec[c.env]...)}
+}
+
+// ExploreFrom is Explore with the knowledge of a snapshot taken by another
+// exploration over the same frames.
+func (x *EvExplorer[S]) ExploreFrom(root *evFrame, init S, snap *EvSnapshot) []evExit[S] {
+	start := evPath[S]{abs: init}
+	if snap != nil && len(snap.ents) > 0 {
+		start.env = x.et.encode(append([]evEnvEnt(nil), snap.ents...))
+	}
+	out := x.runFrame(root, start)
 	if os.Getenv("KC_DEBUG") != "" {
 		fmt.Fprintf(os.Stderr, "evx: %s steps=%d exits=%d envs=%d\n", FuncName(x.T.P, root.fn), x.Steps, len(out), len(x.et.dec))
 	}
@@ -926,6 +1109,23 @@ func (x *EvExplorer[S]) runFrame(f *evFrame, start evPath[S]) []evExit[S] {
 // snapshots it.
 func (x *EvExplorer[S]) trackCell(f *evFrame, in ssa.Instruction, env evEnv) evEnv {
 	switch v := in.(type) {
+	case *ssa.BinOp:
+		// small integer arithmetic on known constants (loop counters over literal tables)
+		switch v.Op {
+		case token.ADD, token.SUB:
+			a, okA := x.resolveEnv(env, f, v.X).V.(*ssa.Const)
+			b, okB := x.resolveEnv(env, f, v.Y).V.(*ssa.Const)
+			if okA && okB && a.Value != nil && b.Value != nil && a.Value.Kind() == constant.Int && b.Value.Kind() == constant.Int {
+				n := a.Int64() + b.Int64()
+				if v.Op == token.SUB {
+					n = a.Int64() - b.Int64()
+				}
+				if n >= -1 && n <= evMaxCount {
+					return x.et.setAlias(env, evVal{f, v}, evVal{nil, x.T.konst(n, v.Type())})
+				}
+			}
+		}
+		return env
 	case *ssa.Alloc:
 		// a fresh variable holds its zero value
 		if !x.T.simpleCell(v) {
@@ -939,6 +1139,9 @@ func (x *EvExplorer[S]) trackCell(f *evFrame, in ssa.Instruction, env evEnv) evE
 	case *ssa.Store:
 		cell, ok := x.T.cellOfAddr(f, v.Addr)
 		if !ok {
+			cell, ok = x.arrayCell(env, f, v.Addr)
+		}
+		if !ok {
 			return env
 		}
 		return x.bind(env, cell, f, v.Val)
@@ -947,6 +1150,9 @@ func (x *EvExplorer[S]) trackCell(f *evFrame, in ssa.Instruction, env evEnv) evE
 			return env
 		}
 		cell, ok := x.T.cellOfAddr(f, v.X)
+		if !ok {
+			cell, ok = x.arrayCell(env, f, v.X)
+		}
 		if !ok {
 			return env
 		}
@@ -961,6 +1167,103 @@ func (x *EvExplorer[S]) trackCell(f *evFrame, in ssa.Instruction, env evEnv) evE
 		}
 	}
 	return env
+}
+
+// evMaxCount bounds the integer constants that are tracked, so that counting
+// loops stop being unrolled after a few iterations.
+const evMaxCount = 8
+
+// konst returns the canonical constant n of type typ.
+func (t *evFrames) konst(n int64, typ types.Type) *ssa.Const {
+	k := fmt.Sprintf("%s|%d", typ.String(), n)
+	if c, ok := t.konsts[k]; ok {
+		return c
+	}
+	c := ssa.NewConst(constant.MakeInt64(n), typ)
+	t.konsts[k] = c
+	return c
+}
+
+// constLen: v is a slice of a whole array literal (or the array itself).
+func (t *evFrames) constLen(v evVal) (int64, bool) {
+	switch x := v.V.(type) {
+	case *ssa.Slice:
+		if x.Low != nil || x.High != nil || x.Max != nil {
+			return 0, false
+		}
+		if pt, ok := x.X.Type().Underlying().(*types.Pointer); ok {
+			if at, ok := pt.Elem().Underlying().(*types.Array); ok {
+				return at.Len(), true
+			}
+		}
+	}
+	return 0, false
+}
+
+// arrayCell: addr is &a[k] with k a known constant and a (a slice of) a local
+// array literal that is only ever initialised element by element and sliced.
+func (x *EvExplorer[S]) arrayCell(env evEnv, f *evFrame, addr ssa.Value) (evVal, bool) {
+	ia, ok := addr.(*ssa.IndexAddr)
+	if !ok {
+		return evVal{}, false
+	}
+	base := x.resolveEnv(env, f, ia.X)
+	if sl, ok := base.V.(*ssa.Slice); ok && sl.Low == nil && sl.High == nil && sl.Max == nil {
+		base = x.resolveEnv(env, base.F, sl.X)
+	}
+	a, ok := base.V.(*ssa.Alloc)
+	if !ok {
+		return evVal{}, false
+	}
+	kc, ok := x.resolveEnv(env, f, ia.Index).V.(*ssa.Const)
+	if !ok || kc.Value == nil || kc.Value.Kind() != constant.Int {
+		return evVal{}, false
+	}
+	reps, seen := x.T.arrays[a]
+	if !seen {
+		reps = map[int64]*ssa.IndexAddr{}
+		plain := true
+		if pt, ok := a.Type().Underlying().(*types.Pointer); !ok {
+			plain = false
+		} else if _, isArr := pt.Elem().Underlying().(*types.Array); !isArr {
+			plain = false
+		}
+		for _, r := range refs(a) {
+			switch y := r.(type) {
+			case *ssa.IndexAddr:
+				k, isK := y.Index.(*ssa.Const)
+				if !isK || k.Value == nil {
+					plain = false
+					continue
+				}
+				for _, u := range refs(y) {
+					switch z := u.(type) {
+					case *ssa.Store:
+						if z.Addr != ssa.Value(y) {
+							plain = false
+						}
+					case *ssa.UnOp, *ssa.DebugRef:
+					default:
+						plain = false
+					}
+				}
+				if reps[k.Int64()] == nil {
+					reps[k.Int64()] = y
+				}
+			case *ssa.Slice, *ssa.DebugRef:
+			default:
+				plain = false
+			}
+		}
+		if !plain {
+			reps = nil
+		}
+		x.T.arrays[a] = reps
+	}
+	if reps == nil || reps[kc.Int64()] == nil {
+		return evVal{}, false
+	}
+	return evVal{base.F, reps[kc.Int64()]}, true
 }
 
 // cellOfAddr: addr (in frame f) is the address of a tracked local cell, also
@@ -1125,7 +1428,7 @@ func evOnlyCallsParam(c *ssa.Call, mc *ssa.MakeClosure) bool {
 // evClosuresCalledOnSpot: every closure capturing cell is only ever called or
 // deferred directly (not started as a goroutine, stored or passed on).
 func evClosuresCalledOnSpot(cell ssa.Value, depth int) bool {
-	if depth > 4 {
+	if depth > 10 {
 		return false
 	}
 	for _, r := range refs(cell) {
@@ -1335,7 +1638,18 @@ func evSelectEdge(ifi *ssa.If, taken bool) (*ssa.Select, int, bool) {
 // execCall executes a call instruction (Call, or a Defer being replayed) on
 // path p of frame f and returns the continuing paths.
 func (x *EvExplorer[S]) execCall(f *evFrame, site ssa.CallInstruction, p evPath[S], replay bool) []evPath[S] {
-	cf := x.T.Callee(f, site)
+	var fv evVal
+	if cc := site.Common(); !cc.IsInvoke() {
+		fv = x.resolveEnv(p.env, f, cc.Value)
+	}
+	cf := x.T.calleeVal(f, site, fv)
+	once := false
+	if cf == nil && callIs(site, "sync", "Once", "Do") && len(site.Common().Args) == 2 {
+		// once.Do(fn) runs fn (here: as if this were the first call)
+		if of := x.T.calleeOf(f, site, x.resolveEnv(p.env, f, site.Common().Args[1]), true); of != nil {
+			cf, once = of, true
+		}
+	}
 	// forget what was known about the previous execution of this call
 	if p.env != "" {
 		call, _ := site.(*ssa.Call)
@@ -1362,7 +1676,13 @@ func (x *EvExplorer[S]) execCall(f *evFrame, site ssa.CallInstruction, p evPath[
 			return nil
 		}
 	}
+	_ = once
 	if cf == nil {
+		if call, ok := site.(*ssa.Call); ok && builtinName(site) == "len" && len(call.Call.Args) == 1 {
+			if n, ok := x.T.constLen(x.resolveEnv(p.env, f, call.Call.Args[0])); ok {
+				p.env = x.et.setAlias(p.env, evVal{f, call}, evVal{nil, x.T.konst(n, call.Type())})
+			}
+		}
 		if cc := site.Common(); !cc.IsInvoke() && (staticCallee(site) == nil || staticCallee(site).Synthetic != "") {
 			if _, isB := cc.Value.(*ssa.Builtin); !isB {
 				x.Dynamic = append(x.Dynamic, evDynCall{site, x.resolveEnv(p.env, f, cc.Value)})
@@ -1455,6 +1775,12 @@ func (t *evFrames) GoFrame(f *evFrame, g *ssa.Go) *evFrame { return t.Callee(f, 
 // callee (transitively, also through go/defer), contains a call instruction
 // satisfying pred.
 func evReachesCall(p *Prog, fn *ssa.Function, pred func(ci ssa.CallInstruction) bool) bool {
+	return evReachesCallVia(nil, p, fn, pred)
+}
+
+// evReachesCallVia also walks through the seams t knows how to follow:
+// func-typed fields assigned once and single-implementation interfaces.
+func evReachesCallVia(t *evFrames, p *Prog, fn *ssa.Function, pred func(ci ssa.CallInstruction) bool) bool {
 	seen := map[*ssa.Function]bool{}
 	var walk func(f *ssa.Function) bool
 	walk = func(f *ssa.Function) bool {
@@ -1484,6 +1810,20 @@ func evReachesCall(p *Prog, fn *ssa.Function, pred func(ci ssa.CallInstruction) 
 			}
 			if cal := staticCallee(ci); cal != nil && p.funcSet[cal] && walk(cal) {
 				found = true
+			}
+			if t != nil && !found {
+				cc := ci.Common()
+				if cc.IsInvoke() {
+					if m := t.soleImpl(cc.Method); m != nil && walk(m) {
+						found = true
+					}
+				} else if id, _, ok := fieldOfValue(cc.Value); ok {
+					if v, ok := t.fieldFunc(id); ok {
+						if tf := evFuncOfValue(p, v.V); tf != nil && walk(tf) {
+							found = true
+						}
+					}
+				}
 			}
 		})
 		return found
@@ -1541,6 +1881,7 @@ func evHeld(p *Prog, e *LockEngine, t *evFrames, roots []*ssa.Function, lockID s
 	x := NewEvExplorer[evHeldState](t)
 	var pending []*evFrame
 	queued := map[*evFrame]bool{}
+	snaps := map[*evFrame]*EvSnapshot{}
 	x.Instr = func(c *EvCtx[evHeldState], in ssa.Instruction, s evHeldState) (evHeldState, bool) {
 		switch s.mode {
 		case ModeW:
@@ -1554,11 +1895,12 @@ func evHeld(p *Prog, e *LockEngine, t *evFrames, roots []*ssa.Function, lockID s
 			if gf := t.GoFrame(c.F, g); gf != nil && !queued[gf] {
 				queued[gf] = true
 				pending = append(pending, gf)
+				snaps[gf] = c.Snapshot()
 			}
 			return s, true
 		}
 		if ci, ok := in.(ssa.CallInstruction); ok {
-			if id, kind, ok := e.lockOp(ci); ok && id == lockID {
+			if id, kind, ok := evLockOp(c, e, ci); ok && id == lockID {
 				switch kind {
 				case opLock:
 					s.mode = ModeW
@@ -1577,7 +1919,7 @@ func evHeld(p *Prog, e *LockEngine, t *evFrames, roots []*ssa.Function, lockID s
 	for len(pending) > 0 {
 		gf := pending[0]
 		pending = pending[1:]
-		x.Explore(gf, evHeldState{})
+		x.ExploreFrom(gf, evHeldState{}, snaps[gf])
 	}
 	return seen, x.Incomplete
 }
@@ -1701,4 +2043,82 @@ func evDerivesFromParam[S comparable](c *EvCtx[S], f *evFrame, v ssa.Value, root
 		return false
 	}
 	return walk(evVal{f, v}, 0)
+}
+
+// evField is a field of a component struct or of one of its sub-structs.
+type evField struct {
+	ID   FieldID
+	Type types.Type
+}
+
+// evFieldsDeep lists the fields of the struct type t and, recursively, of the
+// fields whose type is a named struct of package pkgPath held by value, by
+// pointer or embedded (state grouped into sub-structs), unless leaf says the
+// type is a unit of its own. Fields are identified by (immediate struct type,
+// field name), which is what the SSA field accesses show.
+func evFieldsDeep(pkgPath string, t types.Type, leaf func(named string) bool) []evField {
+	var out []evField
+	seen := map[string]bool{}
+	var walk func(t types.Type, depth int)
+	walk = func(t types.Type, depth int) {
+		owner := namedKey(t)
+		st := structOf(t)
+		if st == nil || owner == "" || seen[owner] || depth > 4 {
+			return
+		}
+		seen[owner] = true
+		for i := 0; i < st.NumFields(); i++ {
+			f := st.Field(i)
+			out = append(out, evField{FieldID{owner, f.Name()}, f.Type()})
+			nk := namedKey(f.Type())
+			if strings.HasPrefix(nk, pkgPath+".") && structOf(f.Type()) != nil && (leaf == nil || !leaf(nk)) {
+				if _, isSlice := f.Type().Underlying().(*types.Slice); !isSlice {
+					walk(f.Type(), depth+1)
+				}
+			}
+		}
+	}
+	walk(t, 0)
+	return out
+}
+
+// evLockOp is LockEngine.lockOp with the receiver resolved along the path (a
+// lock reached through a bound method value, a parameter, a local alias).
+func evLockOp[S comparable](c *EvCtx[S], e *LockEngine, ci ssa.CallInstruction) (string, lockOpKind, bool) {
+	if id, kind, ok := e.lockOp(ci); ok {
+		return id, kind, true
+	}
+	if len(ci.Common().Args) == 0 || !isLockName(ci) {
+		return "", 0, false
+	}
+	var kind lockOpKind
+	switch calleeObj(ci).Name() {
+	case "Lock":
+		kind = opLock
+	case "RLock":
+		kind = opRLock
+	case "Unlock":
+		kind = opUnlock
+	case "RUnlock":
+		kind = opRUnlock
+	}
+	id, ok := lockIdent(c.Resolve(ci.Common().Args[0]).V)
+	return id, kind, ok
+}
+
+// evWgIdent is wgIdent with the receiver resolved along the path.
+func evWgIdent[S comparable](c *EvCtx[S], v ssa.Value) string {
+	if id := wgIdent(v); id != "?" {
+		return id
+	}
+	return wgIdent(c.Resolve(v).V)
+}
+
+// evWgArg: the WaitGroup a sync.WaitGroup method call operates on ("?" when the
+// call is the entry into a bound method wrapper: the call inside it is seen next).
+func evWgArg[S comparable](c *EvCtx[S], ci ssa.CallInstruction) string {
+	if len(ci.Common().Args) == 0 {
+		return "?"
+	}
+	return evWgIdent(c, ci.Common().Args[0])
 }
